@@ -29,6 +29,7 @@ table = ("### 10.6 Seeded changes\n\n"
 p = os.path.join(ROOT, "DESIGN.md")
 s = open(p).read()
 i = s.index("### 10.6 Seeded changes")
-s = s[:i] + table
+j = s.find("### 10.7 ", i)
+s = s[:i] + table + ("\n" + s[j:] if j >= 0 else "")
 open(p, "w").write(s)
 print("rows:", len(rows))
